@@ -7,6 +7,8 @@ RFF = "litedram/core/refresher.py"
 XBF = "litedram/core/crossbar.py"
 DMF = "litedram/frontend/dma.py"
 MDF = "litedram/modules.py"
+COF = "litedram/common.py"
+CTF = "litedram/core/controller.py"
 
 
 def M(id, prop, ob, file, old, new, expect="refuted", **kw):
@@ -137,4 +139,14 @@ MUTANTS = [
     M("c05.3-policy", "C05", "C05.3", MXF, "arbiter = RoundRobin(n, SP_CE)", "arbiter = RoundRobin(n, SP_WITHDRAW)"),
     M("c05.4-lock-extra", "C05", "C05.4", BMF, " | (cmd_buffer_lookahead.level != 0)),", " | (cmd_buffer_lookahead.level != 0) | row_opened),"),
     M("c05.1-dead-end", "C05", "C05.1", MXF, '        fsm.act("WTR",\n            If(twtrcon.ready,\n                NextState("READ")\n            )\n        )', '        fsm.act("WTR",\n            If(twtrcon.ready,\n                choose_req.want_reads.eq(1)\n            )\n        )'),
+    # ---- C06 ----
+    M("c06.2-cba-ignores-align", "C06", ["C06.1", "C06.2"], XBF, "controller.settings.geom.colbits - controller.address_align,", "controller.settings.geom.colbits,"),
+    M("c06.1-bank-upper", "C06", ["C06.1", "C06.2"], COF, "        cba_upper = cba_shift + bank_bits\n        return self.cmd.addr[cba_shift:cba_upper]", "        cba_upper = cba_shift + bank_bits\n        return self.cmd.addr[cba_shift+1:cba_upper+1]"),
+    M("c06.4-col-9", "C06", ["C06.4", "C06.1", "C06.5"], BMF, "address[:10-self.address_align],", "address[:9-self.address_align],"),
+    M("c06.4-no-skip", "C06", "C06.4", BMF, "                Replicate(0, 1),\n", ""),
+    M("c06.3-row-split", "C06", ["C06.3", "C06.1"], BMF, "    def row(self, address):\n        split = self.colbits - self.address_align", "    def row(self, address):\n        split = self.colbits"),
+    M("c06.5-align", "C06", "C06.5", CTF, "address_align = log2_int(burst_length)", "address_align = log2_int(burst_length) - 1"),
+    M("c06.5-sdr", "C06", "C06.5", CTF, "burst_length = phy_settings.nphases", "burst_length = 2*phy_settings.nphases"),
+    B("c06-twin-split", "C06", BMF, "    def row(self, address):\n        split = self.colbits - self.address_align\n        return address[split:]", "    def row(self, address):\n        return address[self.colbits - self.address_align:]"),
+    B("c06-twin-rca", "C06", COF, "            if cba_shift:\n                return Cat(self.cmd.addr[:cba_shift], self.cmd.addr[cba_upper:])\n            else:\n                return self.cmd.addr[cba_upper:]", "            return Cat(self.cmd.addr[:cba_shift], self.cmd.addr[cba_upper:])"),
 ]
